@@ -378,6 +378,23 @@ func TestVerifC15(t *testing.T) {
 		a.fl = float64(ra.Intn(100000)) / 100
 		arows = append(arows, a)
 	}
+	// values beyond 2^53 that differ by less than the float64 spacing there (2^58+1..12 and their negatives),
+	// two per series, arriving in ascending order in even series and in descending order in odd ones, so no
+	// arrival order makes a lossy comparison come out right
+	for j := int64(0); j < 6; j++ {
+		for h := int64(1); h <= 2; h++ {
+			for sign := int64(1); sign >= -1; sign -= 2 {
+				uid++
+				at := time.Duration(h) * time.Minute
+				if j%2 == 1 {
+					at = time.Duration(3-h) * time.Minute
+				}
+				a := aggRow{id: fmt.Sprintf("a%02d", j), uid: uid, ts: base.Add(time.Duration(j%3)*24*time.Hour + 20*time.Hour + at + time.Duration(sign+1)*time.Second), v: sign * (1<<58 + 2*j + h), fl: 1}
+				a.svc, a.region = fmt.Sprintf("svc-%d", int(a.id[2]-'0')%3), fmt.Sprintf("r%d", int(a.id[2]-'0')%2)
+				arows = append(arows, a)
+			}
+		}
+	}
 	setupAggWorld(t, vec, arows)
 	setupAggWorld(t, row, arows)
 	time.Sleep(1200 * time.Millisecond)
@@ -394,7 +411,7 @@ func TestVerifC15(t *testing.T) {
 		var rv, rr proto.Message
 		var ev, er error
 		hBefore, sBefore := vmplan.HandledCount(), vstream.QueryCount()
-		switch k := r.Intn(10); {
+		switch k := r.Intn(12); {
 		case k < 4: // stream criteria / order / window
 			b := bs[r.Intn(2)]
 			tr := genCriteria(r, r.Intn(3))
@@ -447,6 +464,34 @@ func TestVerifC15(t *testing.T) {
 			if c != nil {
 				rr = normalizeMeasureResp(c)
 			}
+		case k < 8: // measure raw points whose tag and field values differ from point to point (single- and multi-series)
+			req := &measurev1.QueryRequest{Groups: []string{"ga"}, Name: "ma", TimeRange: tsRange(lo, hi),
+				TagProjection:   &modelv1.TagProjection{TagFamilies: []*modelv1.TagProjection_TagFamily{{Name: "default", Tags: [][]string{{"uid"}, {"id", "uid", "svc"}, {"uid", "region", "id"}}[r.Intn(3)]}}},
+				FieldProjection: &measurev1.QueryRequest_FieldProjection{Names: [][]string{{"v"}, {"fl", "v"}, {"fl"}}[r.Intn(3)]},
+				Limit:           uint32([]int{0, 1, 7, 5000}[r.Intn(4)]), Offset: uint32([]int{0, 0, 2}[r.Intn(3)])}
+			switch r.Intn(3) {
+			case 0:
+				req.Criteria = &modelv1.Criteria{Exp: &modelv1.Criteria_Condition{Condition: &modelv1.Condition{Name: "id", Op: modelv1.Condition_BINARY_OP_EQ, Value: tStr(fmt.Sprintf("a%02d", r.Intn(6)))}}}
+			case 1:
+				req.Criteria = &modelv1.Criteria{Exp: &modelv1.Criteria_Condition{Condition: &modelv1.Condition{Name: "id", Op: modelv1.Condition_BINARY_OP_IN, Value: tStrArr([]string{fmt.Sprintf("a%02d", r.Intn(6)), fmt.Sprintf("a%02d", r.Intn(6))})}}}
+			}
+			if r.Intn(3) > 0 {
+				req.OrderBy = &modelv1.QueryOrder{Sort: []modelv1.Sort{modelv1.Sort_SORT_ASC, modelv1.Sort_SORT_DESC}[r.Intn(2)]}
+			}
+			if r.Intn(4) == 0 { // a narrow window inside one day
+				d := time.Duration(r.Intn(3)) * 24 * time.Hour
+				req.TimeRange = tsRange(base.Add(d), base.Add(d+time.Duration(1+r.Intn(600))*time.Second))
+			}
+			desc = "measure-raw " + clipS(prototext.MarshalOptions{Multiline: false}.Format(req), 500)
+			var a, c *measurev1.QueryResponse
+			a, ev = vec.queryMeasure(proto.Clone(req).(*measurev1.QueryRequest))
+			c, er = row.queryMeasure(proto.Clone(req).(*measurev1.QueryRequest))
+			if a != nil {
+				rv = normalizeMeasureResp(a)
+			}
+			if c != nil {
+				rr = normalizeMeasureResp(c)
+			}
 		default: // aggregation / group-by / top
 			q := genAggQuery(r, i)
 			req := q.request(lo, hi)
@@ -468,32 +513,38 @@ func TestVerifC15(t *testing.T) {
 				}
 				rr = c
 			}
-			// C10: the row server's answer against the reference (group key -> aggregate)
-			if er == nil && q.hasAgg && q.top == 0 {
-				want := refAgg(arows, q)
-				got := map[string]int64{}
-				dup := false
-				for _, dp := range c.DataPoints {
-					k, v, ok := dpKeyVal(dp, q.groupBy, q.field)
-					if !ok {
-						continue
-					}
-					if _, seen := got[k]; seen {
-						dup = true
-					}
-					got[k] = v
+			// C10: both servers' answers against the reference (group key -> aggregate)
+			for si, resp := range []*measurev1.QueryResponse{c, a} {
+				path := []string{"row", "vectorized"}[si]
+				if resp == nil {
+					continue
 				}
-				s.Count("c10.svc.aggregate_queries_checked", 1)
-				if d := diffAgg(got, want, q); d != "" || dup {
-					key := "c10:svc:" + fnName(q.fn) + ":differs-from-reference"
-					if fnName(q.fn) == "MEAN" && strings.Contains(d, "clamped") {
-						key = "agg:int64:MEAN:clamped-to-1-when-mean-below-1"
+				if q.hasAgg && q.top == 0 {
+					want := refAgg(arows, q)
+					got := map[string]int64{}
+					dup := false
+					for _, dp := range resp.DataPoints {
+						k, v, ok := dpKeyVal(dp, q.groupBy, q.field)
+						if !ok {
+							continue
+						}
+						if _, seen := got[k]; seen {
+							dup = true
+						}
+						got[k] = v
 					}
-					s.Violation(key, map[string]any{"query": q.desc, "discrepancy": d, "group_returned_twice": dup, "groups_expected": len(want), "groups_returned": len(got)})
+					s.Count("c10.svc.aggregate_queries_checked", 1)
+					if d := diffAgg(got, want, q); d != "" || dup {
+						key := "c10:svc:" + path + ":" + fnName(q.fn) + ":differs-from-reference"
+						if fnName(q.fn) == "MEAN" && strings.Contains(d, "clamped") {
+							key = "agg:int64:MEAN:clamped-to-1-when-mean-below-1"
+						}
+						s.Violation(key, map[string]any{"query": q.desc, "path": path, "discrepancy": d, "group_returned_twice": dup, "groups_expected": len(want), "groups_returned": len(got)})
+					}
 				}
-			}
-			if er == nil && q.top > 0 {
-				checkTop(s, c, arows, q)
+				if q.top > 0 {
+					checkTop(s, resp, arows, q, path)
+				}
 			}
 		}
 		handled := vmplan.HandledCount() > hBefore || vstream.QueryCount() > sBefore
@@ -557,7 +608,7 @@ func diffAgg(got, want map[string]int64, q aggQuery) string {
 }
 
 // checkTop: TOP/BOTTOM-N over raw points or over an aggregate per group.
-func checkTop(s *verifh.Sink, resp *measurev1.QueryResponse, rows []aggRow, q aggQuery) {
+func checkTop(s *verifh.Sink, resp *measurev1.QueryResponse, rows []aggRow, q aggQuery, path string) {
 	var vals []int64
 	if q.hasAgg {
 		for _, v := range refAgg(rows, q) {
@@ -600,6 +651,6 @@ func checkTop(s *verifh.Sink, resp *measurev1.QueryResponse, rows []aggRow, q ag
 		bad = got[i] != vals[i]
 	}
 	if bad {
-		s.Violation("c10:svc:top:differs-from-reference", map[string]any{"query": q.desc, "returned_values": got, "reference_values": vals[:n]})
+		s.Violation("c10:svc:"+path+":top:differs-from-reference", map[string]any{"query": q.desc, "path": path, "returned_values": got, "reference_values": vals[:n]})
 	}
 }
